@@ -61,7 +61,26 @@ func (d Matches) Less(i, j int) bool {
 		return di.StartTokenIndex < dj.StartTokenIndex
 	}
 	// Should never get here, but tiebreak based on the larger license.
-	return di.EndTokenIndex > dj.EndTokenIndex
+	if di.EndTokenIndex != dj.EndTokenIndex {
+		return di.EndTokenIndex > dj.EndTokenIndex
+	}
+	// Copyright matches carry no token positions and identical texts can match
+	// under several names, so order the remaining ties by line and identity.
+	// Without a total order the unstable sort leaves them in an order that
+	// depends on map iteration.
+	if di.StartLine != dj.StartLine {
+		return di.StartLine < dj.StartLine
+	}
+	if di.EndLine != dj.EndLine {
+		return di.EndLine < dj.EndLine
+	}
+	if di.MatchType != dj.MatchType {
+		return di.MatchType < dj.MatchType
+	}
+	if di.Name != dj.Name {
+		return di.Name < dj.Name
+	}
+	return di.Variant < dj.Variant
 }
 
 // Match reports instances of the supplied content in the corpus.
